@@ -122,7 +122,18 @@ fn monotone(ctx: &Ctx, st: &mut Stats, tcs: &[String], s: Settings, rng: &mut Rn
     if n0 == 0 && n1 > 0 {
         let mut case = case_json(tcs, s);
         case["raised_settings"] = s2.to_json();
-        st.violation("raising_threshold_introduces_quantifier", format!("no quantifier with thresholds ({},{}) but {} with ({},{})", s.min_rep, s.min_len, n1, s2.min_rep, s2.min_len), case);
+        // Known finding KF-D18: the minimum-substring-length filter runs after overlap resolution, so with
+        // min_substring_length >= 2 shorter repeated substrings still displace a longer convertible one and are
+        // then dropped themselves. With min_substring_length == 1 that filter never drops anything, so the
+        // finding cannot explain the observation and it stays a violation.
+        let known = if s.min_len >= 2 { Some("KF-D18") } else { None };
+        ctx.run.classify(
+            st,
+            known,
+            "raising_threshold_introduces_quantifier",
+            format!("no quantifier with thresholds ({},{}) but {} with ({},{})", s.min_rep, s.min_len, n1, s2.min_rep, s2.min_len),
+            case,
+        );
     }
 }
 
@@ -210,6 +221,7 @@ pub fn run(ctx: &Ctx) -> i32 {
             check_case(ctx, st, tcs, Settings::with(REP | DIGIT | NWORD | CAP, s.min_rep, s.min_len));
         }
     });
+    if std::env::var("VERIF_TIMING").is_ok() { eprintln!("[timing] c13.rs block 1: {:.1}s", ctx.run.started.elapsed().as_secs_f64()); }
     // medium-sized inputs: many / long test cases, many distinct symbols, long repeats, deep prefix chains
     {
         let n = if ctx.thorough { 6000 } else { 400 };
@@ -228,20 +240,23 @@ pub fn run(ctx: &Ctx) -> i32 {
             s.min_len = 1 + rng.below(4) as u32;
             monotone(ctx, st, &tcs, s, &mut rng);
         });
+        if std::env::var("VERIF_TIMING").is_ok() { eprintln!("[timing] c13.rs inner 101: {:.1}s", ctx.run.started.elapsed().as_secs_f64()); }
     }
     // whole test cases that are one long run (64..300 repeats) of a single grapheme or a short unit
     {
         let units = ["a", "-", "ab", "\u{1f4a9}", " ", "xyz", "1"];
-        let lens = [63usize, 64, 65, 80, 127, 128, 129, 200, 300];
+        let lens: Vec<usize> = if ctx.thorough { vec![63, 64, 65, 80, 127, 128, 129, 200, 300] } else { vec![63, 64, 65, 80, 127, 128, 129, 150] };
         par_for(&ctx.run, units.len() * lens.len() * 6, |i, st| {
             let u = units[i % units.len()];
-            let n = lens[(i / units.len()) % lens.len()];
+            // `lens` counts graphemes of the whole test case (the repetition search is cubic in it)
+            let n = (lens[(i / units.len()) % lens.len()] / u.chars().count()).max(2);
             let k = i / (units.len() * lens.len());
             let tcs = if k % 2 == 0 { vec![u.repeat(n)] } else { vec![u.repeat(n), format!("{}z", u.repeat(n / 2))] };
             st.count("long_run_inputs");
             let s = Settings::with(REP, [1, 2, 5][k % 3], [1, 2, 3, 4, 2, 3][k % 6]);
             check_case(ctx, st, &tcs, s);
         });
+        if std::env::var("VERIF_TIMING").is_ok() { eprintln!("[timing] c13.rs inner 102: {:.1}s", ctx.run.started.elapsed().as_secs_f64()); }
     }
     // thresholds set before conversion is enabled, with a build in between
     {
@@ -252,6 +267,7 @@ pub fn run(ctx: &Ctx) -> i32 {
             let tcs = gen::repeat_family(&mut rng, &al);
             threshold_history(ctx, st, &tcs, 1 + rng.below(4) as u32, 1 + rng.below(3) as u32);
         });
+        if std::env::var("VERIF_TIMING").is_ok() { eprintln!("[timing] c13.rs inner 103: {:.1}s", ctx.run.started.elapsed().as_secs_f64()); }
     }
     let n = if ctx.thorough { 400_000 } else { 30_000 };
     let names = ["ab", "abc", "meta", "astral", "classes", "graph", "mixed", "case", "clusters", "tokens"];
@@ -274,6 +290,7 @@ pub fn run(ctx: &Ctx) -> i32 {
             monotone(ctx, st, &tcs, s, &mut rng);
         }
     });
+    if std::env::var("VERIF_TIMING").is_ok() { eprintln!("[timing] c13.rs block 2: {:.1}s", ctx.run.started.elapsed().as_secs_f64()); }
     ctx.run.finish(
         "cases = unary, periodic and nested-period inputs (a^i, (ab)^i, x(abc)^i y, (aab)^i c, digits, astral) x all (min_repetitions, min_substring_length) in 1..=6 x 1..=6 (+ escape/verbose/class/capture variants and the build without conversion), random repeat-rich families over 8 alphabets x random other settings x random thresholds (incl. 100 and u32::MAX), each followed by the same build with one threshold raised; one fifth of the random builds have conversion off; non-trivial = the output contains at least one counted repetition; distinct by (set of test cases, settings)",
         "per execution the regex-syntax AST of the real output is walked: with conversion off no {n}/{m,n} operator may exist; with it on every counted repetition must have upper count > min_repetitions and an operand spanning >= min_substring_length code points (nested counted repetitions multiply; code points >= grex's grapheme count, so the monitor can only under-report); raising a threshold must not introduce a quantifier where there was none",
